@@ -202,6 +202,23 @@ Proof.
   - constructor; [intros _; vm_compute; reflexivity|]. constructor; [intros _; vm_compute; reflexivity|constructor].
 Qed.
 
+(* a grid point with SOME coordinate beyond the last knot of its (well-formed) dimension has specification value zero, whatever the
+   other coordinates. With C17_grideval_spec (an entry is the specification value at the coordinates of ITS grid point) this is why
+   a grid of 2^31 and more points, all but a handful of whose abscissae per axis lie beyond the last knot, must list exactly the
+   entries of the small grid made of that handful, re-indexed — the statement the check evaluates on such grids. *)
+From PS Require C17_Beyond.
+Theorem C17_beyond_last_knot_is_zero : forall (A : Arith) (F : OField A) (t : @table A) (xs : list (T A)),
+  C17_Beyond.some_beyond (dims t) xs -> grid_spec t xs = zero.
+Proof. intros A F t xs H. exact (C17_Beyond.grid_spec_beyond_last_knot F t xs H). Qed.
+
+Example C17_beyond_example :       (* abscissa 9 in dimension 0 (knots 0..7), any abscissa in dimension 1 *)
+  C17_Beyond.some_beyond (dims ex_tab) [qz17 9; Q2Qc (3 # 2)] /\ grid_spec ex_tab [qz17 9; Q2Qc (3 # 2)] = Q2Qc 0.
+Proof.
+  assert (H : C17_Beyond.some_beyond (dims ex_tab) [qz17 9; Q2Qc (3 # 2)]).
+  { left. split; [exact (Forall_inv ex_wf)|]. vm_compute. reflexivity. }
+  split; [exact H|]. exact (C17_beyond_last_knot_is_zero QcA QcA_OField ex_tab _ H).
+Qed.
+
 (* the hypotheses of the slicemultiply theorem hold for the array grideval starts from *)
 Example C17_slice_hypotheses_satisfiable :
   wf_nd (initial_nd ex_tab) /\ 0 < length (nd_ranges (initial_nd ex_tab)) /\
@@ -355,6 +372,8 @@ Print Assumptions C17_spec_is_pointwise.
 Print Assumptions C17_bspline_is_cox_de_boor.
 Print Assumptions C17_basis_is_spec_basis.
 Print Assumptions C17_basis_unchanged_on_strict_knots.
+Print Assumptions C17_beyond_last_knot_is_zero.
+Print Assumptions C17_beyond_example.
 Print Assumptions C17_hypotheses_satisfiable.
 Print Assumptions C17_slice_hypotheses_satisfiable.
 Print Assumptions C17_last_knot_agrees.
